@@ -70,6 +70,7 @@ type Machine struct {
 	lastNow   *Term
 	freshMaps map[*MapV]bool
 	bounds    map[*Term][2]int64 // signed interval implied by the path condition, per variable
+	opaqueMemo map[string]*Term
 }
 
 func (m *Machine) fail(kind, detail string) {
